@@ -92,10 +92,11 @@ CLAIMED = {
        "%order_reverse pins) and any pair of configurations of any depth, executing the patch the modelled pipeline (make_diff, "
        "make_pre, logics, ordering, make_patch, sort) computes on old yields new: C01_flat_converges (flat), C01_nested_converges "
        "(patch tree) and C01_nested_converges_paths (the linearised command paths with exit words that cmd_paths sends, executed "
-       "one by one from the top); non-vacuity instances are kernel-checked. PARTIAL: %ordered/%rewrite/%global, custom logics and "
+       "one by one from the top); a second run of the pipeline on the resulting device state returns an empty diff and an empty patch "
+       "(C01_nested_second_run_empty), also along chains of targets (C01_chain_converges); non-vacuity instances are kernel-checked. PARTIAL: %ordered/%rewrite/%global, custom logics and "
        "chains of targets are decided on every generated case by executing the real patch on the device specification (Python "
        "twin cross-checked against the Lean spec); the full-strength statement is false by design for permanent/ignore_changes "
-       "(kernel-checked witnesses) and in 5 recorded corner cases (F01c-g).",
+       "(kernel-checked witnesses) and in 6 recorded corner cases (F01c-h).",
   note=COMMON_NOTE + "Spec/Device.lean is my reading of 'a device that holds one line per rule and key'; the linearisation "
        "ConvergeNested.treePaths is compared with the real formatter.cmd_paths on every case (block-exit formatters); "
        "block-structured vendors only; common logics; no rule row starts with the negation word.",
@@ -119,12 +120,12 @@ CLAIMED = {
        "that generator's own ACL (full, after repair db6d169); an action/condition either yields rows or raises before any row "
        "(full for Huawei after repairs 0cac6f0/47fe134, for conditions on all vendors; Arista/Cumulus partial: one wrong-type "
        "extcommunity shape excluded, kernel-checked witness); on the run(device) stream the rows below a statement header are those "
-       "of the elements that completed; every list a Huawei/Arista policy refers to is defined under the same name and kind by the "
+       "of the elements that completed; every list a Huawei/Arista/Cumulus policy refers to is defined under the same name and kind by the "
        "matching list generator (type-consistent, non-empty lists; false for empty lists: witness + recorded finding F14g); parse of "
        "the rendered rows gives the yielded nesting. Tie: the real generators run through _run_partial_generator vs the model on "
        "13.6k (quick) / 194k (thorough) random and systematic RouteMap programs and entity sets, ACL texts re-extracted from the code.",
   note=COMMON_NOTE + "the annet.rpl builder (R.* / rule.* DSL) is executed, the model starts from the built objects; str(int) and "
-       "ipaddress formatting done by the harness; refs/defs for Cumulus decided by tie and oracle only; programs with unknown or "
+       "ipaddress formatting done by the harness; programs with unknown or "
        "wrong-type list names are judged on ACL coverage, nesting and name-level refs only.",
   design="§5 C14", technique="Lean 4 proof (stream/ACL/reference lemmas over a line-exact generator model) + differential correspondence on generated RouteMap programs"),
  "C15": dict(
